@@ -12,6 +12,8 @@ physical arguments in other units).  Oracles:
 """
 from __future__ import annotations
 
+from vp import guard as _guard
+
 import inspect
 import signal
 from typing import Any
@@ -402,8 +404,8 @@ def _sensitivity(eq: Any, sub: dict[Any, Any], qsub: dict[Any, Any], res0: Any) 
 
 
 def judge(desc: dict[str, Any], recipe: list[Any], hang_s: int = 40, profile: str = "macro") -> tuple[list[tuple[str, str]], dict[str, Any]]:
-    signal.signal(signal.SIGALRM, _alarm)
-    signal.alarm(hang_s)
+    _guard.install(_alarm)
+    _guard.arm(hang_s)
     try:
         return _judge(desc, recipe, profile)
     except _Hang:
